@@ -380,6 +380,8 @@ def error_conversion_and_leftovers(chk: Check, repo: Repo) -> None:
 
 
 def run(chk: Check, repo: Repo) -> None:
+    from .common_rules import refusal_during_connect_is_heard
+    refusal_during_connect_is_heard(chk, repo)
     error_conversion_and_leftovers(chk, repo)
     p2p_process(chk, repo)
     mgmt_process(chk, repo)
